@@ -50,7 +50,7 @@ func semUnit(c *Ctx, prop string, p *Prog, txts []string, withVars bool, alsoRep
 				c.Count("reference_too_expensive_skipped", 1)
 				continue
 			}
-			if arb != nil && !arb.bad && !strings.Contains(t, "\r") {
+			if arb != nil && !arb.bad && !strings.Contains(t, "\r") && isASCII(t) { // Go's regexp works on characters, the engine and R on bytes: they are comparable on ASCII texts only
 				// the reference matcher itself is validated against Go's regexp on the regular subset
 				if gw, ok := arb.scan(t); ok {
 					if !spansEqual(gw, want, withVars) {
